@@ -290,3 +290,109 @@ func VerifC04ControllerOrder() {
 	verifrt.Assert(nDeletes > 0, "C04/teardown-deletes-controlled-objects")
 	verifrt.Reach("torn-down")
 }
+
+// vRolloutRun rolls an ObjectSet out through the real controller wiring (finalizer, revision, slice loader, phases)
+// in one pass and reports the objects written, status.controllerOf and Available of the last status written. The
+// API answers the way the API server does: a status update is answered with the stored object (spec and metadata as
+// stored, not as changed in memory). firstPass: status.revision is not yet known and is computed from `previous`.
+func vRolloutRun(sliced, firstPass, hasPrevious bool, n int) (written []string, controllerOf []string, available string, revision int64, err error) {
+	ctl, c, _, _, _ := vC11Setup(true)
+	c.StatusUpdateAnswersStored = true
+	c.PatchAnswersStored = true
+	os := &corev1alpha1.ObjectSet{}
+	os.Name, os.Namespace, os.UID = "me", "ns", "uid-me"
+	os.Generation = 3
+	os.Finalizers = []string{constants.CachedFinalizer}
+	if !firstPass {
+		os.Status.Revision = 2
+	}
+	if hasPrevious {
+		prev := &corev1alpha1.ObjectSet{}
+		prev.Name, prev.Namespace, prev.UID = "prev", "ns", "uid-prev"
+		prev.Status.Revision = 1
+		c.Put(prev)
+		os.Spec.Previous = []corev1alpha1.PreviousRevisionReference{{Name: "prev"}}
+	}
+	ph := corev1alpha1.ObjectSetTemplatePhase{Name: "p"}
+	for k := 0; k < n; k++ {
+		x := vNamedCM("x" + strconv.Itoa(k))
+		if !sliced {
+			ph.Objects = append(ph.Objects, x)
+			continue
+		}
+		ph.Slices = append(ph.Slices, "s"+strconv.Itoa(k))
+		sl := &corev1alpha1.ObjectSlice{}
+		sl.Name, sl.Namespace = "s"+strconv.Itoa(k), "ns"
+		sl.Objects = []corev1alpha1.ObjectSetObject{x}
+		sl.OwnerReferences = []metav1.OwnerReference{{APIVersion: "package-operator.run/v1alpha1", Kind: "ObjectSet", Name: "me", UID: "uid-me"}}
+		c.Put(sl)
+	}
+	os.Spec.Phases = []corev1alpha1.ObjectSetTemplatePhase{ph}
+	c.Put(os)
+	_, err = ctl.Reconcile(context.Background(), ctrl.Request{NamespacedName: types.NamespacedName{Namespace: "ns", Name: "me"}})
+	for _, call := range c.Calls {
+		if !call.IsRealWrite() {
+			continue
+		}
+		switch {
+		case call.Verb == "status-update" && call.Key.Name == "me":
+			available, _ = vCondStatus(call.Obj, corev1alpha1.ObjectSetAvailable)
+			controllerOf = nil
+			st, _ := call.Obj["status"].(map[string]interface{})
+			if l, ok := st["controllerOf"].([]interface{}); ok {
+				for _, e := range l {
+					m, _ := e.(map[string]interface{})
+					name, _ := m["name"].(string)
+					controllerOf = append(controllerOf, name)
+				}
+			}
+			switch r := st["revision"].(type) {
+			case int64:
+				revision = r
+			case float64:
+				revision = int64(r)
+			}
+		case call.Key.Kind == "ConfigMap":
+			written = append(written, call.Verb+" "+call.Key.Name)
+		}
+	}
+	return
+}
+
+func vSameStrings(a, b []string) bool {
+	if len(a) != len(b) {
+		return false
+	}
+	for k := range a {
+		if a[k] != b[k] {
+			return false
+		}
+	}
+	return true
+}
+
+// VerifC14Rollout: an ObjectSet whose phase references slices rolls out and reports status exactly like the same
+// ObjectSet with the objects inline - in its very first pass (revision still to be determined from `previous`, a
+// status write in the middle of the pass) as well as later.
+func VerifC14Rollout() {
+	n := verifrt.IntRange("nObjects", 1, verifrt.Bound("maxObjects", 2))
+	firstPass := verifrt.Bool("firstPass")
+	hasPrevious := verifrt.Bool("hasPrevious")
+	w1, c1, a1, r1, e1 := vRolloutRun(false, firstPass, hasPrevious, n)
+	w2, c2, a2, r2, e2 := vRolloutRun(true, firstPass, hasPrevious, n)
+	verifrt.Assert(e1 == nil && len(w1) == n && len(c1) == n && a1 == "True", "C14/inline-rollout-writes-and-reports-every-object")
+	want := int64(2)
+	if firstPass && !hasPrevious {
+		want = 1
+	}
+	verifrt.Assert(r1 == want, "C02/revision-follows-previous")
+	verifrt.Assert((e1 == nil) == (e2 == nil), "C14/sliced-rollout-same-result")
+	verifrt.Assert(vSameStrings(w1, w2), "C14/sliced-rollout-writes-the-same-objects")
+	verifrt.Assert(vSameStrings(c1, c2), "C14/sliced-rollout-reports-the-same-controllerOf")
+	verifrt.Assert(a1 == a2 && r1 == r2, "C14/sliced-rollout-reports-the-same-status")
+	if firstPass {
+		verifrt.Reach("first-pass")
+	} else {
+		verifrt.Reach("later-pass")
+	}
+}
